@@ -3,7 +3,17 @@
 manifest is always schema-valid)."""
 import json, os
 V = os.path.dirname(os.path.dirname(os.path.abspath(__file__)))
-props = json.load(open(os.path.join(V, "bin", "claims.json")))
+ids = [json.loads(l)["id"] for l in open(os.path.join(V, "properties.jsonl"))]
+claims = {}
+for i in ids:
+    f = os.path.join(V, "claims", i + ".json")
+    if os.path.exists(f):
+        claims[i] = json.load(open(f))
+na_reasons = json.load(open(os.path.join(V, "claims", "not_applicable.json")))
+props = {"claims": claims,
+         "not_applicable": [{"property_id": i, "reason": na_reasons.get(i, na_reasons["default"])} for i in ids if i not in claims],
+         "hook_commits": na_reasons.get("hook_commits", []),
+         "notes": na_reasons.get("notes", "")}
 checks = []
 for pid, c in sorted(props["claims"].items()):
     checks.append({
